@@ -281,10 +281,23 @@ class Program:
     def add(self, fns, repo_root=None):
         for name, f in fns.items():
             self.fns.setdefault(name, f)
-            m = re.search(r"<impl at ([^:>]+):(\d+):\d+: \d+:\d+>::(\w+)$", name)
+            m = re.search(r"<impl at ([^:>]+):(\d+):(\d+): (\d+):(\d+)>::(\w+)$", name)
             if m and repo_root:
-                path, line, method = m.group(1), int(m.group(2)), m.group(3)
+                path, line, method = m.group(1), int(m.group(2)), m.group(6)
                 hdr = self._source_line(repo_root, path, line)
+                if hdr and "derive(" in hdr and int(m.group(4)) == line:
+                    # derive-generated impl: the span covers the trait name inside #[derive(...)]; the type follows
+                    trait = hdr[int(m.group(3)) - 1:int(m.group(5)) - 1].strip()
+                    tyname = None
+                    for k in range(line, line + 12):
+                        nxt = self._source_line(repo_root, path, k + 1)
+                        tm = re.match(r"\s*(?:pub(?:\([^)]*\))?\s+)?(?:enum|struct)\s+(\w+)", nxt or "")
+                        if tm:
+                            tyname = tm.group(1)
+                            break
+                    if trait and tyname:
+                        self.impls.append((trait, tyname, method, f))
+                    continue
                 hm = re.match(r"\s*impl(?:<[^>]*>)?\s+(.+?)\s+for\s+(.+?)\s*\{?\s*$", hdr or "")
                 if hm:
                     self.impls.append((norm_ty(hm.group(1)), norm_ty(hm.group(2)), method, f))
@@ -333,8 +346,9 @@ class Program:
 
     def resolve_trait_call(self, self_ty, trait, method):
         last = trait.split("::")[-1] if trait else None
+        self_ty = re.sub(r"^&\s*('\w+\s+)?(mut\s+)?", "", self_ty.strip())
         c = [f for (t, s, m, f) in self.impls
-             if m == method and s == norm_ty(self_ty) and (t is None or last is None or t.split("::")[-1] == last or
+             if m == method and (s == norm_ty(self_ty) or type_head(s) == type_head(self_ty)) and (t is None or last is None or t.split("::")[-1] == last or
                                                            norm_ty(t).split("::")[-1] == norm_ty(last))]
         if len(c) == 1:
             return c[0]
@@ -380,223 +394,433 @@ class PathExplosion(Exception):
     pass
 
 
+class Ref(Val):
+    """A pointer to a place of some frame (only created for `&`/`&mut` of locals; references handed in from outside
+    are represented by the referent itself)."""
+
+    def __init__(self, frame, place):
+        self.frame = frame
+        self.place = place
+
+    def __repr__(self):
+        return f"&{self.frame}.{self.place.local}{list(self.place.proj)}"
+
+
+class Tokens(Val):
+    """Model of a proc_macro2::TokenStream under construction: the list of tokens pushed so far."""
+
+    def __init__(self, toks=()):
+        self.toks = tuple(toks)
+
+    def __repr__(self):
+        return "ts[" + " ".join(map(str, self.toks)) + "]"
+
+
+class Sym(Val):
+    """A symbolic value of an ADT type: tag and fields are created on demand (and cached, so that two reads of the
+    same field see the same value)."""
+
+    def __init__(self, ty_text, name, ex, ctx=None):
+        self.ty_text = ty_text
+        self.name = name
+        self.ex = ex
+        self.tdef = ex.types.resolve(ty_text, ctx)      # TypeDef or None (opaque)
+        self._tag = None
+        self._children = {}
+
+    def __repr__(self):
+        return f"sym<{self.name}:{type_head(self.ty_text)}>"
+
+    def tag(self):
+        if self.tdef is None or self.tdef.kind != "enum":
+            raise Unsupported(f"discriminant of non-enum symbolic value {self!r} ({self.ty_text})")
+        if self._tag is None:
+            e = self.ex.enc
+            t = f"{self.name}!tag"
+            e.decls.append(f"(declare-const {t} Int)")
+            e.side.append(f"(and (<= 0 {t}) (< {t} {len(self.tdef.variants)}))")
+            self._tag = S("tag", t)
+            self._tag.owner = self
+        return self._tag
+
+    def child(self, variant, idx):
+        key = (variant, idx)
+        if key not in self._children:
+            if self.tdef is None:
+                raise Unsupported(f"field of opaque symbolic value {self!r}")
+            fty = self.tdef.field_type(variant, idx, self.ty_text)
+            nm = f"{self.name}.{variant + '.' if variant else ''}{idx}"
+            self._children[key] = self.ex.sym_value(fty, nm, self.tdef.modpath)
+        return self._children[key]
+
+
+class State:
+    __slots__ = ("store", "pc", "facts", "events")
+
+    def __init__(self, store=None, pc=None, facts=None, events=None):
+        self.store = store if store is not None else {}
+        self.pc = pc if pc is not None else []
+        self.facts = facts if facts is not None else {}     # tag term -> ('eq', k) | ('ne', {k..})
+        self.events = events if events is not None else []
+
+    def fork(self):
+        return State({f: dict(l) for f, l in self.store.items()}, list(self.pc), dict(self.facts), list(self.events))
+
+
 class Executor:
-    def __init__(self, program, enc, max_paths=4000, intrinsics=None, opaque_calls=None):
+    def __init__(self, program, enc, max_paths=20000, intrinsics=None, opaque_calls=None, types=None):
         self.p = program
         self.enc = enc
         self.max_paths = max_paths
         self.paths = 0
-        self.encoded = []         # names of functions actually executed
+        self.encoded = []
         self.intrinsics = intrinsics or {}
-        self.opaque_calls = opaque_calls   # callable(callee, args) -> Val | None for un-modelled non-diverging calls
+        self.opaque_calls = opaque_calls
+        self.types = types
+        self.frame_counter = 0
+        self.sym_counter = 0
 
-    # -- entry
-    def run(self, fn, args, subst=None, depth=0):
-        """Execute `fn` on argument values; returns [Outcome]."""
-        if depth > 12:
-            raise Unsupported("call depth > 12 in " + fn.name)
+    # ---- symbolic inputs ---------------------------------------------------------------------------------
+    def sym_value(self, ty_text, name, ctx=None):
+        """A fully symbolic value of the given Rust type."""
+        t = ty_text.strip()
+        while t.startswith("&"):
+            t = re.sub(r"^&\s*('\w+\s+)?(mut\s+)?", "", t)
+        m = re.match(r"^(?:std::boxed::|alloc::boxed::)?Box<(.*)>$", t)
+        if m:
+            return self.sym_value(m.group(1), name, ctx)
+        e = self.enc
+        nm = re.sub(r"[^A-Za-z0-9_.!]", "_", name)
+        if t in ("i64", "isize", "i32", "i128", "usize", "u64", "u32", "u8"):
+            return e.int_var(nm)
+        if t == "bool":
+            return e.bool_var(nm)
+        if t in ("f64", "f32"):
+            return e.fp_var(nm)
+        if t == "()":
+            return Unit()
+        if t.startswith("(") and t.endswith(")"):
+            return Tup([self.sym_value(x, f"{nm}.{k}", ctx) for k, x in enumerate(split_top(t[1:-1]))])
+        if self.types is None:
+            return Opaque(nm)
+        return Sym(t, nm, self, ctx)
+
+    # ---- entry -------------------------------------------------------------------------------------------
+    def run(self, fn, args, subst=None, depth=0, state=None):
+        """Execute `fn` on argument values; returns [Outcome] (Outcome.state carries the final store/facts)."""
+        if depth > 16:
+            raise Unsupported("call depth > 16 in " + fn.name)
         if fn.name not in self.encoded:
             self.encoded.append(fn.name)
         subst = subst or {}
-        locals_ = {}
+        st = state.fork() if state is not None else State()
+        self.frame_counter += 1
+        frame = self.frame_counter
+        st.store[frame] = {}
         for (l, _), a in zip(fn.params, args):
-            locals_[l] = a
+            st.store[frame][l] = a
+        for l, t in fn.locals.items():
+            # capture-less closures / zero-sized values are never assigned in MIR but may be borrowed
+            if l not in st.store[frame] and (t.startswith("{closure@") or t.startswith("[closure@")):
+                st.store[frame][l] = Opaque("closure " + t)
         outs = []
-        self._block(fn, "bb0", locals_, [], [], subst, outs, depth, 0)
+        self._block(fn, frame, "bb0", st, subst, outs, depth, 0)
+        for o in outs:
+            o.state.store.pop(frame, None)
         return outs
 
     def _ty(self, fn, local, subst):
-        t = fn.locals.get(local, "?")
-        return apply_subst(t, subst)
+        return apply_subst(fn.locals.get(local, "?"), subst)
 
-    def _block(self, fn, bb, locals_, pc, events, subst, outs, depth, steps):
-        if steps > 400:
-            raise Unsupported(f"more than 400 blocks on one path in {fn.name} (loop?)")
-        self.paths += 1
-        if self.paths > self.max_paths:
-            raise PathExplosion(fn.name)
-        blk = fn.blocks[bb]
-        locals_ = dict(locals_)
-        for st in blk.stmts:
-            self._stmt(fn, st, locals_, subst)
-        t = blk.term
-        if t is None:
-            raise Unsupported(f"{fn.name}:{bb} has no terminator")
-        if t == "return":
-            outs.append(Outcome(pc, "return", locals_.get("_0", Unit()), events=list(events)))
-            return
-        if t in ("unreachable",):
-            return
-        if t == "resume" or t.startswith("terminate"):
-            outs.append(Outcome(pc, "panic", info="unwind", events=list(events)))
-            return
-        m = re.match(r"^goto -> (bb\d+)$", t)
-        if m:
-            return self._block(fn, m.group(1), locals_, pc, events, subst, outs, depth, steps + 1)
-        m = re.match(r"^(?:falseEdge|falseUnwind) -> \[real: (bb\d+),", t)
-        if m:
-            return self._block(fn, m.group(1), locals_, pc, events, subst, outs, depth, steps + 1)
-        m = re.match(r"^switchInt\((.*)\) -> \[(.*)\]$", t)
-        if m:
-            v = self._operand(fn, parse_operand(m.group(1)), locals_, subst)
-            arms = [a.strip() for a in m.group(2).split(",")]
-            taken = []
-            for a in arms:
-                k, tgt = [x.strip() for x in a.split(":")]
-                if k == "otherwise":
-                    cond = conj([neg(c) for c in taken])
-                    c_here = cond
-                else:
-                    c_here = self._switch_eq(v, k)
-                    taken.append(c_here)
-                c_here = simplify_bool(c_here)
-                if c_here == "false" or simplify_bool(neg(c_here)) in pc:
-                    continue   # syntactically contradictory with the path so far
-                npc = pc if (c_here == "true" or c_here in pc) else pc + [c_here]
-                self._block(fn, tgt, locals_, npc, events, subst, outs, depth, steps + 1)
-            return
-        m = re.match(r"^assert\((!?)(.*?), (\".*\")(?:, .*)?\) -> \[success: (bb\d+), unwind.*\]$", t)
-        if m:
-            negated, opnd, msg, tgt = m.groups()
-            v = self._operand(fn, parse_operand(opnd), locals_, subst)
-            ok = neg(v.term) if negated else v.term
-            ok = simplify_bool(ok)
-            if ok != "true" and ok not in pc:
-                bad = simplify_bool(neg(ok))
-                if bad != "false":
-                    outs.append(Outcome(pc + [bad], "panic", info="assert: " + msg.strip('"'), events=list(events)))
-            if ok == "false" or simplify_bool(neg(ok)) in pc:
+    def _out(self, st, kind, value=None, info=None):
+        o = Outcome(list(st.pc), kind, value, info, list(st.events))
+        o.state = st
+        return o
+
+    def _block(self, fn, frame, bb, st, subst, outs, depth, steps):
+        while True:
+            if steps > 600:
+                raise Unsupported(f"more than 600 blocks on one path in {fn.name} (loop?)")
+            self.paths += 1
+            if self.paths > self.max_paths:
+                raise PathExplosion(fn.name)
+            blk = fn.blocks[bb]
+            for stt in blk.stmts:
+                self._stmt(fn, frame, stt, st, subst)
+            t = blk.term
+            if t is None:
+                raise Unsupported(f"{fn.name}:{bb} has no terminator")
+            if t == "return":
+                outs.append(self._out(st, "return", st.store[frame].get("_0", Unit())))
                 return
-            npc = pc if (ok == "true" or ok in pc) else pc + [ok]
-            return self._block(fn, tgt, locals_, npc, events, subst, outs, depth, steps + 1)
-        m = re.match(r"^drop\(.*\) -> \[return: (bb\d+), unwind.*\]$", t)
-        if m:
-            return self._block(fn, m.group(1), locals_, pc, events, subst, outs, depth, steps + 1)
-        # calls
-        m = re.match(r"^(?:(.+?) = )?(.+\)) -> (.*)$", t)
-        if m:
-            dest, call, targets = m.groups()
-            rm = re.search(r"return: (bb\d+)", targets)
-            ret_bb = rm.group(1) if rm else None
-            callee, argtexts = parse_call(call)
-            args = [self._operand(fn, parse_operand(a), locals_, subst) for a in argtexts]
-            callee = apply_subst(callee, subst)
-            results = self._call(fn, callee, args, depth)
-            for (cpc, kind, val, info, evs) in results:
-                if kind == "panic" or ret_bb is None:
-                    outs.append(Outcome(pc + cpc, "panic", info=info or f"diverging call {callee}",
-                                        events=list(events) + evs))
-                    continue
-                l2 = dict(locals_)
-                if dest:
-                    self._write(fn, parse_place(dest), val, l2, subst)
-                self._block(fn, ret_bb, l2, pc + cpc, list(events) + evs, subst, outs, depth, steps + 1)
-            return
-        raise Unsupported(f"terminator in {fn.name}:{bb}: {t}")
+            if t == "unreachable":
+                return
+            if t == "resume" or t.startswith("terminate"):
+                outs.append(self._out(st, "panic", info="unwind"))
+                return
+            m = re.match(r"^goto -> (bb\d+)$", t) or re.match(r"^(?:falseEdge|falseUnwind) -> \[real: (bb\d+),", t) \
+                or re.match(r"^drop\(.*\) -> \[return: (bb\d+), unwind.*\]$", t)
+            if m:
+                bb = m.group(1)
+                steps += 1
+                continue
+            m = re.match(r"^switchInt\((.*)\) -> \[(.*)\]$", t)
+            if m:
+                v = self._operand(fn, frame, parse_operand(m.group(1)), st, subst)
+                arms = [a.strip() for a in m.group(2).split(",")]
+                taken = []
+                for a in arms:
+                    k, tgt = [x.strip() for x in a.split(":")]
+                    st2 = self._assume_switch(st, v, k, taken)
+                    if k != "otherwise":
+                        taken.append(k)
+                    if st2 is None:
+                        continue
+                    self._block(fn, frame, tgt, st2, subst, outs, depth, steps + 1)
+                return
+            m = re.match(r"^assert\((!?)(.*?), (\".*\")(?:, .*)?\) -> \[success: (bb\d+), unwind.*\]$", t)
+            if m:
+                negated, opnd, msg, tgt = m.groups()
+                v = self._operand(fn, frame, parse_operand(opnd), st, subst)
+                ok = simplify_bool(neg(v.term) if negated else v.term)
+                bad = simplify_bool(neg(ok))
+                if ok != "true" and ok not in st.pc and bad != "false" and bad not in [simplify_bool(neg(c)) for c in st.pc]:
+                    sb = st.fork()
+                    sb.pc.append(bad)
+                    outs.append(self._out(sb, "panic", info="assert: " + msg.strip('"')))
+                if ok == "false" or bad in st.pc:
+                    return
+                if ok != "true" and ok not in st.pc:
+                    st.pc.append(ok)
+                bb = tgt
+                steps += 1
+                continue
+            # calls
+            m = re.match(r"^(?:(.+?) = )?(.+\)) -> (.*)$", t)
+            if m:
+                dest, call, targets = m.groups()
+                rm = re.search(r"return: (bb\d+)", targets)
+                ret_bb = rm.group(1) if rm else None
+                callee, argtexts = parse_call(call)
+                args = [self._operand(fn, frame, parse_operand(a), st, subst) for a in argtexts]
+                callee = apply_subst(callee, subst)
+                results = self._call(fn, callee, args, depth, st)
+                for (kind, val, info, st2) in results:
+                    if kind == "panic" or ret_bb is None:
+                        outs.append(self._out(st2, "panic", info=info or f"diverging call {callee}"))
+                        continue
+                    if dest:
+                        self._write(fn, frame, parse_place(dest), val, st2, subst)
+                    self._block(fn, frame, ret_bb, st2, subst, outs, depth, steps + 1)
+                return
+            raise Unsupported(f"terminator in {fn.name}:{bb}: {t}")
 
-    def _switch_eq(self, v, k):
-        if isinstance(v, Scalar):
-            if v.sort == "bool":
-                return v.term if k != "0" else neg(v.term)
-            if v.sort == "int":
-                return self.enc.icmp("Eq", v.term, self.enc.int_const(int(k)))
-            if v.sort == "tag":
-                if re.match(r"^-?\d+$", v.term):
-                    return "true" if int(v.term) == int(k) else "false"
-                return f"(= {v.term} {int(k)})"
-        raise Unsupported(f"switchInt on {v!r}")
+    # ---- branching with simple path facts --------------------------------------------------------------------
+    def _assume_switch(self, st, v, k, taken):
+        """-> forked state with the branch condition added, or None if the branch is infeasible on this path."""
+        if not isinstance(v, Scalar):
+            raise Unsupported(f"switchInt on {v!r}")
+        if v.sort == "bool":
+            cond = simplify_bool(v.term if (k != "0" and k != "otherwise") else neg(v.term))
+            if k == "otherwise":
+                cond = simplify_bool(v.term) if "0" in taken else cond
+            if cond == "false" or simplify_bool(neg(cond)) in st.pc:
+                return None
+            st2 = st.fork()
+            if cond != "true" and cond not in st2.pc:
+                st2.pc.append(cond)
+            return st2
+        const = re.match(r"^-?\d+$", v.term) is not None and v.sort == "tag"
+        if const:
+            val = int(v.term)
+            if k == "otherwise":
+                return st.fork() if str(val) not in taken else None
+            return st.fork() if int(k) == val else None
+        term = v.term
+        fact = st.facts.get(term)
+        if k == "otherwise":
+            ks = [int(x) for x in taken]
+            if fact and fact[0] == "eq":
+                return st.fork() if fact[1] not in ks else None
+            owner = getattr(v, "owner", None)
+            if owner is not None and owner.tdef is not None and len(set(ks)) >= len(owner.tdef.variants) and \
+                    set(range(len(owner.tdef.variants))) <= set(ks):
+                return None
+            st2 = st.fork()
+            ne = set(fact[1]) if fact else set()
+            ne |= set(ks)
+            st2.facts[term] = ("ne", ne)
+            for x in ks:
+                c = neg(self._eq_const(v, x))
+                if c not in st2.pc:
+                    st2.pc.append(c)
+            return st2
+        kv = int(k)
+        if fact:
+            if fact[0] == "eq":
+                return st.fork() if fact[1] == kv else None
+            if kv in fact[1]:
+                return None
+        owner = getattr(v, "owner", None)
+        if owner is not None and owner.tdef is not None and not (0 <= kv < len(owner.tdef.variants)):
+            return None
+        st2 = st.fork()
+        st2.facts[term] = ("eq", kv)
+        st2.pc.append(self._eq_const(v, kv))
+        return st2
 
-    # -- calls
-    def _call(self, fn, callee, args, depth):
-        """-> [(pc, kind, value, info, events)]"""
+    def _eq_const(self, v, k):
+        if v.sort == "tag":
+            return f"(= {v.term} {k})"
+        return self.enc.icmp("Eq", v.term, self.enc.int_const(k))
+
+    # ---- calls -----------------------------------------------------------------------------------------------
+    def _call(self, fn, callee, args, depth, st):
+        """-> [(kind, value, info, state)]"""
         for pat, h in self.intrinsics.items():
             if re.search(pat, callee):
-                return h(self, callee, args)
-        # trait call  <T as Trait<..>>::method
+                res = h(self, callee, [self.deref(a, st) for a in args] if getattr(h, "deref_args", True) else args)
+                if res and len(res[0]) == 5:   # scalar-style intrinsic: (pc, kind, value, info, events)
+                    out = []
+                    for (cpc, kind, val, info, evs) in res:
+                        st2 = st.fork()
+                        skip = False
+                        for c in cpc:
+                            c = simplify_bool(c)
+                            if c == "false" or simplify_bool(neg(c)) in st2.pc:
+                                skip = True
+                                break
+                            if c != "true" and c not in st2.pc:
+                                st2.pc.append(c)
+                        if skip:
+                            continue
+                        st2.events += evs
+                        out.append((kind, val, info, st2))
+                    return out
+                return res
+        for pat, h in getattr(self, "state_intrinsics", {}).items():
+            if re.search(pat, callee):
+                return h(self, callee, args, st)
+        cm = re.match(r"^<&?(?:mut )?(\{closure@[^}]+\}) as .*Fn(?:Mut|Once)?<.*>>::call(?:_mut|_once)?$", callee)
+        if cm:
+            ctext = cm.group(1)
+            cands = [f for f in self.p.fns.values() if f.params and ctext in f.params[0][1] and "{closure#" in f.name]
+            if len(cands) != 1:
+                raise Unsupported(f"cannot resolve closure call {callee}")
+            packed = self.deref(args[1], st)
+            cargs = [args[0]] + (list(packed.items) if isinstance(packed, Tup) else [packed])
+            outs = self.run(cands[0], cargs, {}, depth + 1, st)
+            return [(o.kind, o.value, o.info, o.state) for o in outs]
         m = re.match(r"^<(.+) as (.+)>::(\w+)$", callee)
         target = None
         if m:
             target = self.p.resolve_trait_call(m.group(1), m.group(2), m.group(3))
-            if target is None:
+            if target is None and not self.opaque_calls:
                 raise Unsupported(f"cannot resolve trait call {callee}")
         else:
             target = self.p.lookup(callee)
             if target is None:
                 target = self.p.resolve_inherent(callee)
         if target is not None:
-            outs = self.run(target, args, {}, depth + 1)
-            return [(o.pc, o.kind, o.value, o.info, o.events) for o in outs]
+            outs = self.run(target, args, {}, depth + 1, st)
+            return [(o.kind, o.value, o.info, o.state) for o in outs]
         if self.opaque_calls:
-            r = self.opaque_calls(self, callee, args)
+            r = self.opaque_calls(self, callee, args, st)
             if r is not None:
                 return r
         raise Unsupported(f"call to un-modelled function {callee} from {fn.name}")
 
-    # -- statements
-    def _stmt(self, fn, st, locals_, subst):
-        if st.startswith(("StorageLive", "StorageDead", "nop", "FakeRead", "PlaceMention", "Retag", "AscribeUserType",
-                          "Coverage", "ConstEvalCounter", "BackwardIncompatibleDropHint")):
-            return
-        m = re.match(r"^(.+?) = (.*)$", st)
-        if not m:
-            raise Unsupported("statement: " + st)
-        lhs, rhs = m.group(1), m.group(2)
-        place = parse_place(lhs)
-        hint = self._ty(fn, place.local, subst) if not place.proj else None
-        val = self._rvalue(fn, rhs, locals_, subst, hint)
-        self._write(fn, place, val, locals_, subst)
+    # ---- memory -------------------------------------------------------------------------------------------------
+    def deref(self, v, st):
+        while isinstance(v, Ref):
+            v = self._load(v.frame, v.place, st)
+        return v
 
-    def _write(self, fn, place, val, locals_, subst):
-        if not place.proj:
-            locals_[place.local] = val
-            return
-        # functional update of a tuple field (only shape needed here)
-        base = locals_.get(place.local)
-        if len(place.proj) == 1 and place.proj[0][0] == "field" and isinstance(base, Tup):
-            items = list(base.items)
-            items[place.proj[0][1]] = val
-            locals_[place.local] = Tup(items)
-            return
-        if len(place.proj) == 1 and place.proj[0][0] == "deref":
-            # write through a reference: references are identity here; the referent local is unknown -> only
-            # allowed when nothing reads it back (we keep the value on the ref local itself)
-            locals_[place.local] = val
-            return
-        raise Unsupported(f"write to projected place {place}")
-
-    def _read(self, fn, place, locals_, subst):
-        if place.local not in locals_:
-            raise Unsupported(f"read of unassigned local {place.local} in {fn.name}")
-        v = locals_[place.local]
+    def _load(self, frame, place, st):
+        loc = st.store.get(frame, {})
+        if place.local not in loc:
+            raise Unsupported(f"read of unassigned local {place.local}")
+        v = loc[place.local]
         for pr in place.proj:
+            v = self.deref(v, st)
             if pr[0] == "deref":
                 continue
             if pr[0] == "field":
-                if isinstance(v, Tup):
-                    v = v.items[pr[1]]
-                elif isinstance(v, Adt):
-                    f = v.fields[pr[1]]
-                    v = f[1] if isinstance(f, tuple) else f
-                else:
-                    v = self._project(v, pr)
-                continue
-            if pr[0] == "downcast":
+                v = self._field(v, pr[1], None)
+            elif pr[0] == "downcast":
                 v = self._downcast(v, pr[1])
-                continue
-            raise Unsupported(f"projection {pr} in {fn.name}")
+            elif pr[0] == "constindex":
+                v = v.items[pr[1]] if isinstance(v, Tup) else self._unsup(f"const index on {v!r}")
+            else:
+                raise Unsupported(f"projection {pr}")
         return v
 
-    def _project(self, v, pr):
-        raise Unsupported(f"field projection on {v!r}")
+    def _unsup(self, msg):
+        raise Unsupported(msg)
+
+    def _field(self, v, idx, variant):
+        if isinstance(v, _Down):
+            return self._field(v.inner, idx, v.variant)
+        if isinstance(v, Tup):
+            return v.items[idx]
+        if isinstance(v, Adt):
+            f = v.fields[idx]
+            return f[1] if isinstance(f, tuple) else f
+        if isinstance(v, Sym):
+            return v.child(variant, idx)
+        raise Unsupported(f"field .{idx} of {v!r}")
 
     def _downcast(self, v, variant):
         if isinstance(v, Adt):
             return v
-        raise Unsupported(f"downcast on {v!r}")
+        if isinstance(v, Sym):
+            return _Down(v, variant)
+        raise Unsupported(f"downcast of {v!r}")
 
-    def _operand(self, fn, op, locals_, subst):
+    def _read(self, fn, frame, place, st, subst):
+        return self._load(frame, place, st)
+
+    def _store(self, frame, place, val, st):
+        loc = st.store[frame]
+        if not place.proj:
+            loc[place.local] = val
+            return
+        # find the last deref through a Ref: redirect
+        base = loc.get(place.local)
+        proj = list(place.proj)
+        if proj and proj[0] == ("deref",) and isinstance(base, Ref):
+            tgt = base
+            return self._store(tgt.frame, Place(tgt.place.local, tuple(tgt.place.proj) + tuple(proj[1:])), val, st)
+        if proj and proj[0] == ("deref",):
+            return self._store(frame, Place(place.local, tuple(proj[1:])), val, st)
+        if len(proj) == 1 and proj[0][0] == "field":
+            cur = loc.get(place.local)
+            if isinstance(cur, Tup):
+                items = list(cur.items)
+                items[proj[0][1]] = val
+                loc[place.local] = Tup(items)
+                return
+            if isinstance(cur, Adt):
+                fields = list(cur.fields)
+                old = fields[proj[0][1]]
+                fields[proj[0][1]] = (old[0], val) if isinstance(old, tuple) else val
+                loc[place.local] = Adt(cur.ty, cur.variant, fields)
+                return
+            if cur is None:
+                # field-wise initialisation of a tuple local
+                n = proj[0][1] + 1
+                items = [Opaque("uninit")] * n
+                items[proj[0][1]] = val
+                loc[place.local] = Tup(items)
+                return
+        raise Unsupported(f"write to projected place {place}")
+
+    def _write(self, fn, frame, place, val, st, subst):
+        self._store(frame, place, val, st)
+
+    def _operand(self, fn, frame, op, st, subst):
         if op.kind in ("copy", "move"):
-            return self._read(fn, op.place, locals_, subst)
+            return self._load(frame, op.place, st)
         return self._const(op.const)
 
     def _const(self, c):
@@ -617,60 +841,115 @@ class Executor:
             return S("fp", e.fp_const(c))
         if c == "()":
             return Unit()
-        return self._const_other(c)
-
-    def _const_other(self, c):
+        item = self.p.fns.get(c) or self.p.fns.get("incan_core::" + c)
+        if item is not None and getattr(item, "is_const", False):
+            return self.eval_const_item(item)
         return Opaque("const " + c)
 
-    def _rvalue(self, fn, rhs, locals_, subst, hint=None):
+    def eval_const_item(self, item):
+        """Evaluate a promoted constant / const item body (no inputs) to its value; references are looked through."""
+        if not hasattr(self, "_const_cache"):
+            self._const_cache = {}
+        if item.name in self._const_cache:
+            return self._const_cache[item.name]
+        st = State()
+        self.frame_counter += 1
+        frame = self.frame_counter
+        st.store[frame] = {}
+        outs = []
+        self._block(item, frame, "bb0", st, {}, outs, 0, 0)
+        rets = [o for o in outs if o.kind == "return"]
+        if len(rets) != 1:
+            raise Unsupported(f"constant {item.name} has {len(rets)} evaluation paths")
+        v = self.deref(rets[0].value, rets[0].state)
+        self._const_cache[item.name] = v
+        return v
+
+    # ---- statements -----------------------------------------------------------------------------------------
+    def _stmt(self, fn, frame, stt, st, subst):
+        if stt.startswith(("StorageLive", "StorageDead", "nop", "FakeRead", "PlaceMention", "Retag", "AscribeUserType",
+                           "Coverage", "ConstEvalCounter", "BackwardIncompatibleDropHint", "Deinit")):
+            return
+        m = re.match(r"^(.+?) = (.*)$", stt)
+        if not m:
+            raise Unsupported("statement: " + stt)
+        lhs, rhs = m.group(1), m.group(2)
+        place = parse_place(lhs)
+        hint = self._ty(fn, place.local, subst) if not place.proj else None
+        val = self._rvalue(fn, frame, rhs, st, subst, hint)
+        self._store(frame, place, val, st)
+
+    def _rvalue(self, fn, frame, rhs, st, subst, hint=None):
         e = self.enc
         rhs = rhs.strip()
-        # cast
         m = re.match(r"^(.*) as (.+?) \((\w+)(?:\(.*\))?\)$", rhs)
         if m and m.group(1).startswith(("copy ", "move ", "const ")):
-            v = self._operand(fn, parse_operand(m.group(1)), locals_, subst)
+            v = self.deref(self._operand(fn, frame, parse_operand(m.group(1)), st, subst), st)
             kind = m.group(3)
             if kind == "IntToFloat":
                 return S("fp", e.int_to_fp(v))
-            if kind in ("PointerCoercion", "Transmute", "PtrToPtr", "IntToInt") and isinstance(v, (Opaque, Adt)):
+            if kind in ("PointerCoercion", "Transmute", "PtrToPtr", "IntToInt") and not (isinstance(v, Scalar) and v.sort == "fp"):
                 return v
             raise Unsupported(f"cast {kind} in {fn.name}: {rhs}")
         m = re.match(r"^(\w+)\((.*)\)$", rhs)
         if m and m.group(1) in BINOPS:
-            a, b = [self._operand(fn, parse_operand(x), locals_, subst) for x in split_top(m.group(2))]
+            a, b = [self.deref(self._operand(fn, frame, parse_operand(x), st, subst), st) for x in split_top(m.group(2))]
             return self._binop(fn, m.group(1), a, b)
         if m and m.group(1) in UNOPS:
-            a = self._operand(fn, parse_operand(m.group(2)), locals_, subst)
+            a = self.deref(self._operand(fn, frame, parse_operand(m.group(2)), st, subst), st)
             if m.group(1) == "Not" and a.sort == "bool":
                 return S("bool", neg(a.term))
             if m.group(1) == "Neg" and a.sort == "fp":
                 return S("fp", f"(fp.neg {a.term})")
             if m.group(1) == "Neg" and a.sort == "int":
-                z = e.int_const(0)
-                r, _ = e.arith_ovf("Sub", z, a.term)
+                r, _ = e.arith_ovf("Sub", e.int_const(0), a.term)
                 return S("int", r)
             raise Unsupported("unop " + rhs)
         if m and m.group(1) == "discriminant":
-            return self._discriminant(self._read(fn, parse_place(m.group(2)), locals_, subst))
+            return self._discriminant(self.deref(self._load(frame, parse_place(m.group(2)), st), st))
         if rhs.startswith("&"):
             r = re.sub(r"^&(raw (const|mut) |mut )?", "", rhs)
-            return self._read(fn, parse_place(r), locals_, subst)
+            return self._borrow(frame, parse_place(r), st)
         if rhs.startswith(("copy ", "move ", "const ", "no_retag ")):
-            return self._operand(fn, parse_operand(rhs), locals_, subst)
+            return self._operand(fn, frame, parse_operand(rhs), st, subst)
         if rhs.startswith("(") and rhs.endswith(")"):
             inner = rhs[1:-1].strip()
             if not inner:
                 return Unit()
             parts = split_top(inner)
             if all(p.startswith(("copy ", "move ", "const ")) for p in parts):
-                return Tup([self._operand(fn, parse_operand(p), locals_, subst) for p in parts])
-        return self._aggregate(fn, rhs, locals_, subst, hint)
+                return Tup([self._operand(fn, frame, parse_operand(p), st, subst) for p in parts])
+        return self._aggregate(fn, frame, rhs, st, subst, hint)
 
-    def _aggregate(self, fn, rhs, locals_, subst, hint):
+    def _borrow(self, frame, place, st):
+        """`&P`: a Ref to the place when it stays inside this frame's locals; when the place goes through a value that
+        was handed in as a plain referent (symbolic input), the referent itself."""
+        loc = st.store[frame]
+        v = loc.get(place.local)
+        if v is None:
+            raise Unsupported(f"borrow of unassigned local {place.local}")
+        for k, pr in enumerate(place.proj):
+            if pr[0] == "deref":
+                if isinstance(v, Ref):
+                    # reborrow through a reference: point to the same target + remaining projections
+                    tgt = v
+                    rest = tuple(place.proj[k + 1:])
+                    return self._borrow(tgt.frame, Place(tgt.place.local, tuple(tgt.place.proj) + rest), st)
+                # a referent handed in by value: the rest is a pure read
+                return self._load(frame, place, st)
+            if isinstance(v, (Sym, _Down)):
+                return self._load(frame, place, st)
+            if pr[0] == "field":
+                v = self._field(self.deref(v, st), pr[1], None)
+            elif pr[0] == "downcast":
+                v = self._downcast(self.deref(v, st), pr[1])
+        return Ref(frame, place)
+
+    def _aggregate(self, fn, frame, rhs, st, subst, hint):
         """`Path::Variant`, `Path::Variant(ops)`, `Path { f: op, .. }`, `Path::Variant { f: op }`, `[ops]`."""
         if rhs.startswith("[") and rhs.endswith("]"):
             parts = split_top(rhs[1:-1])
-            return Tup([self._operand(fn, parse_operand(x), locals_, subst) for x in parts])
+            return Tup([self._operand(fn, frame, parse_operand(x), st, subst) for x in parts])
         hint_name = type_head(hint) if hint else None
         m = re.match(r"^([\w:<>', &\[\]()*]+?)\s*\{(.*)\}$", rhs)
         if m:
@@ -678,13 +957,13 @@ class Executor:
             fields = []
             for part in split_top(m.group(2)):
                 fname, fop = part.split(":", 1)
-                fields.append((fname.strip(), self._operand(fn, parse_operand(fop), locals_, subst)))
+                fields.append((fname.strip(), self._operand(fn, frame, parse_operand(fop), st, subst)))
             ty, variant = split_variant(path, hint_name)
             return Adt(ty, variant, fields)
         m = re.match(r"^([\w:<>', &\[\]*]+?)\((.*)\)$", rhs)
         if m and not rhs.startswith(("copy ", "move ", "const ")):
             path = strip_generics(m.group(1).strip())
-            vals = [self._operand(fn, parse_operand(x), locals_, subst) for x in split_top(m.group(2))]
+            vals = [self._operand(fn, frame, parse_operand(x), st, subst) for x in split_top(m.group(2))]
             ty, variant = split_variant(path, hint_name)
             return Adt(ty, variant, vals)
         if re.match(r"^[\w:<>', &]+$", rhs) and "::" in rhs:
@@ -694,15 +973,22 @@ class Executor:
         raise Unsupported(f"rvalue in {fn.name}: {rhs}")
 
     def _discriminant(self, v):
+        if isinstance(v, _Down):
+            v = v.inner
         if isinstance(v, Adt) and v.variant is not None:
-            idx = self.variant_index(v.ty, v.variant)
-            return S("tag", str(idx))
+            return S("tag", str(self.variant_index(v.ty, v.variant)))
+        if isinstance(v, Sym):
+            return v.tag()
         raise Unsupported(f"discriminant of {v!r}")
 
-    BUILTIN_ENUMS = {"Option": ["None", "Some"], "Result": ["Ok", "Err"], "Ordering": ["Less", "Equal", "Greater"]}
+    BUILTIN_ENUMS = {"Option": ["None", "Some"], "Result": ["Ok", "Err"], "Ordering": ["Less", "Equal", "Greater"],
+                     "ControlFlow": ["Continue", "Break"]}
 
     def variant_index(self, ty, variant):
-        order = self.BUILTIN_ENUMS.get(ty) or getattr(self, "enums", {}).get(ty)
+        order = self.BUILTIN_ENUMS.get(ty)
+        if order is None and self.types is not None:
+            td = self.types.resolve(ty)
+            order = [v[0] for v in td.variants] if td is not None and td.kind == "enum" else None
         if order and variant in order:
             return order.index(variant)
         raise Unsupported(f"variant order of {ty}::{variant} unknown")
@@ -710,12 +996,19 @@ class Executor:
     def _binop(self, fn, op, a, b):
         e = self.enc
         if not isinstance(a, Scalar) or not isinstance(b, Scalar):
-            raise Unsupported(f"binop {op} on non-scalars in {fn.name}")
+            raise Unsupported(f"binop {op} on non-scalars in {fn.name}: {a!r}, {b!r}")
         if a.sort == "bool":
             t = {"BitAnd": "and", "BitOr": "or", "Eq": "=", "Ne": "distinct", "BitXor": "xor"}.get(op)
             if not t:
                 raise Unsupported("bool binop " + op)
             return S("bool", f"({t} {a.term} {b.term})")
+        if a.sort == "tag" or b.sort == "tag":
+            lit = re.match(r"^-?\d+$", a.term) and re.match(r"^-?\d+$", b.term)
+            if op == "Eq":
+                return S("bool", ("true" if int(a.term) == int(b.term) else "false") if lit else f"(= {a.term} {b.term})")
+            if op == "Ne":
+                return S("bool", ("false" if int(a.term) == int(b.term) else "true") if lit else f"(not (= {a.term} {b.term}))")
+            raise Unsupported("tag binop " + op)
         if a.sort == "fp":
             x, y = a.term, b.term
             if op == "Rem":
@@ -729,7 +1022,6 @@ class Executor:
             if op == "Ne":
                 return S("bool", f"(not (fp.eq {x} {y}))")
             raise Unsupported("fp binop " + op)
-        # machine integers
         x, y = a.term, b.term
         if op in ("Eq", "Ne", "Lt", "Le", "Gt", "Ge"):
             return S("bool", e.icmp(op, x, y))
@@ -744,6 +1036,17 @@ class Executor:
         if op == "Rem":
             return S("int", e.divrem(x, y)[1])
         raise Unsupported("int binop " + op)
+
+
+class _Down(Val):
+    """A symbolic enum value viewed as one of its variants (`(x as Variant)`)."""
+
+    def __init__(self, inner, variant):
+        self.inner = inner
+        self.variant = variant
+
+    def __repr__(self):
+        return f"({self.inner!r} as {self.variant})"
 
 
 def type_head(t):
@@ -846,6 +1149,13 @@ def intr_wrapping_neg(ex, callee, args):
     return _ret(S("int", e.share(e.int_sort(), r)))
 
 
+def intr_neg(ex, callee, args):
+    e = ex.enc
+    r, o = e.arith_ovf("Sub", e.int_const(0), args[0].term)
+    return [([o], "panic", None, "assert: attempt to negate with overflow", []),
+            ([neg(o)], "return", S("int", e.share(e.int_sort(), r)), None, [])]
+
+
 def intr_abs(ex, callee, args):
     e = ex.enc
     x = args[0].term
@@ -931,6 +1241,13 @@ def _checked(which):
     return h
 
 
+def intr_checked_neg(ex, callee, args):
+    e = ex.enc
+    r, o = e.arith_ovf("Sub", e.int_const(0), args[0].term)
+    some = Adt("Option", "Some", [S("int", e.share(e.int_sort(), r))])
+    return [([o], "return", Adt("Option", "None", []), None, []), ([neg(o)], "return", some, None, [])]
+
+
 def _sat(which):
     def h(ex, callee, args):
         e = ex.enc
@@ -1011,6 +1328,7 @@ NUMERIC_INTRINSICS = {
     _I + r"wrapping_sub$": _int_arith("Sub", True),
     _I + r"wrapping_mul$": _int_arith("Mul", True),
     _I + r"wrapping_neg$": intr_wrapping_neg,
+    r"^<&?i64 as (std::ops::)?Neg>::neg$": intr_neg,
     _I + r"wrapping_div$": intr_wrapping_div,
     _I + r"(wrapping_)?abs$": intr_abs,
     _I + r"signum$": intr_signum,
@@ -1025,6 +1343,7 @@ NUMERIC_INTRINSICS = {
     _I + r"checked_mul$": _checked("Mul"),
     _I + r"checked_div$": _checked("Div"),
     _I + r"checked_rem$": _checked("Rem"),
+    _I + r"checked_neg$": intr_checked_neg,
     _I + r"saturating_add$": _sat("Add"),
     _I + r"saturating_sub$": _sat("Sub"),
     _F + r"is_sign_negative$": _fpb("(fp.isNegative {x})"),
